@@ -69,13 +69,16 @@ class Location(object):
         >>> Location(StringIO("some text"), has_column=True)
         <io> (1;1)
         """
-        assert file_path
+        assert file_path is not None
         if isinstance(file_path, str):
             self.file_path = file_path
         else:
-            try:
-                self.file_path = file_path.name
-            except AttributeError:
+            # Streams can lack a name or have one that is not a text, for
+            # example a file descriptor number or None for temporary files.
+            stream_name = getattr(file_path, "name", None)
+            if isinstance(stream_name, str) and stream_name:
+                self.file_path = stream_name
+            else:
                 self.file_path = "<io>"
         self._line = 0
         self._column = 0
